@@ -87,6 +87,25 @@ def match_finding(findings, prop, obname):
     return None
 
 
+def _native_is_known(nat, findings, prop):
+    """Does every mismatch of a native counterexample belong to a listed open finding?"""
+    ms = nat.get('mismatches') or []
+    if not ms:
+        return False
+    for m in ms:
+        ok = False
+        for f in findings:
+            if f.get('status') != 'open' or prop not in f.get('properties', []):
+                continue
+            for pat in f.get('native_patterns', []):
+                if pat.get('class') == nat.get('class') and pat.get('clause') == m['clause'].split('[')[0] \
+                        and pat.get('observed_contains', '') in m['observed']:
+                    ok = True
+        if not ok:
+            return False
+    return True
+
+
 def native(cmd_args, timeout=600):
     """Run a harness module under the repository's interpreter; JSON on stdout."""
     env = dict(os.environ)
@@ -164,6 +183,7 @@ def main():
                 f = match_finding(findings, prop, o['name'])
                 if f is not None:
                     known_hits.setdefault(f['id'], []).append(o['name'])
+                    n_ob -= 1        # reported under known_finding_obligations, not as a proved obligation
                 else:
                     violations.append((r, o))
             else:
@@ -210,9 +230,25 @@ def main():
             out_lines.append('CHECKER-FAULT property=%s %s: %s' % (prop, lab, why.splitlines()[0] if why else ''))
         exit_code = 3
     elif undecided:
+        # an undecided obligation is never a violation by itself; the bounded native search of
+        # the same clause family may still find a failing input on the real code
+        os.makedirs(os.path.join(VERIF, 'replays'), exist_ok=True)
         for lab, why in undecided:
-            out_lines.append('UNDECIDED property=%s obligation=%s reason=%s' % (prop, lab, why))
-        exit_code = 2
+            safe = re.sub(r'[^A-Za-z0-9_.-]+', '_', lab)[:150]
+            path = os.path.join(VERIF, 'replays', '%s-undecided-%s.json' % (prop, safe))
+            rep = {'property': prop, 'obligation': lab, 'note': 'UNDECIDED by the prover: %s' % why}
+            json.dump(rep, open(path, 'w'), indent=1)
+            nat = native(['-m', 'harness.replay', path, '--search'])
+            rep['native'] = nat
+            json.dump(rep, open(path, 'w'), indent=1)
+            if nat.get('reproduced') and not _native_is_known(nat, findings, prop):
+                out_lines.append('VIOLATION property=%s replay=%s' % (prop, path))
+                replays.append(path)
+                exit_code = 1
+            else:
+                out_lines.append('UNDECIDED property=%s obligation=%s reason=%s' % (prop, lab, why))
+        if exit_code == 0:
+            exit_code = 2
     elif n_ob == 0:
         out_lines.append('CHECKER-FAULT property=%s zero obligations' % prop)
         exit_code = 3
@@ -263,6 +299,7 @@ def main():
             'solver_time_s': {'sum': round(solver_s, 3), 'max': round(solver_max, 3)},
             'samples': samples,
             'known_findings_reproduced': sorted(known_hits),
+            'known_finding_obligations': {k: v for k, v in sorted(known_hits.items())},
             'undecided': [u[0] for u in undecided],
             'bounded_standins': standins,
             'extraction_drops': 'docstrings, type annotations, text of f-strings / log / warning / exception '
